@@ -297,7 +297,7 @@ pub fn case_strategy() -> impl Strategy<Value = RtCase> + Clone {
     (prop_oneof![3 => Just(1u8), 3 => Just(2u8), 2 => 3u8..=4, 1 => 5u8..=8], 5u8..=50, vec(spec_strategy(), 1..=3)).prop_map(|(limit, idle_ms, rts)| RtCase { limit, idle_ms, rts })
 }
 
-pub fn run(s: &mut Session) {
+pub fn run(s: &mut Session) -> bool {
     let mut p = Part::new(
         "C17",
         "runtimes",
@@ -339,5 +339,5 @@ pub fn run(s: &mut Session) {
         // the fixed cases run once per check, in shard 0
         p.regressions.clear();
     }
-    s.run_part(p, case_strategy(), |c| crate::with_breaker(c, run_rt));
+    s.run_part(p, case_strategy(), |c| crate::with_breaker(c, run_rt))
 }
